@@ -25,7 +25,10 @@ var (
 )
 
 //go:norace
-func clockReset() { clockOff = 0 }
+func clockReset() {
+	clockOff = 0
+	timersReset()
+}
 
 //go:norace
 func simNow() time.Time {
@@ -158,4 +161,122 @@ func RandShuffle(n int, swap func(i, j int)) {
 	for i := n - 1; i > 0; i-- {
 		swap(i, RandIntn(i+1))
 	}
+}
+
+// ---- timers ------------------------------------------------------------------------
+//
+// time.AfterFunc inside the library becomes verifsim.AfterFunc. Under the
+// simulator a timer is an entry in a small table; when the simulated clock has
+// passed its deadline the callback runs at the next yield point, on the
+// goroutine of whichever task is running (timers have no goroutine of their
+// own here). A timer that has not fired when the run ends is dropped.
+
+type Timer struct {
+	real     *time.Timer
+	deadline time.Time
+	f        func()
+	active   bool
+}
+
+const maxTimers = 64
+
+var (
+	timers  [maxTimers]*Timer
+	nTimers int
+)
+
+// AfterFunc replaces time.AfterFunc.
+func AfterFunc(d time.Duration, f func()) *Timer {
+	if !simOn() {
+		return &Timer{real: time.AfterFunc(d, f)}
+	}
+	t := &Timer{deadline: simNow().Add(d), f: f, active: true}
+	addTimer(t)
+	return t
+}
+
+//go:norace
+func addTimer(t *Timer) {
+	for i := range timers {
+		if timers[i] == nil {
+			timers[i] = t
+			nTimers++
+			return
+		}
+	}
+}
+
+//go:norace
+func dropTimer(t *Timer) {
+	for i := range timers {
+		if timers[i] == t {
+			timers[i] = nil
+			nTimers--
+			return
+		}
+	}
+}
+
+// Stop replaces (*time.Timer).Stop.
+func (t *Timer) Stop() bool {
+	if t.real != nil {
+		return t.real.Stop()
+	}
+	return t.stop()
+}
+
+//go:norace
+func (t *Timer) stop() bool {
+	was := t.active
+	t.active = false
+	dropTimer(t)
+	return was
+}
+
+// Reset replaces (*time.Timer).Reset.
+func (t *Timer) Reset(d time.Duration) bool {
+	if t.real != nil {
+		return t.real.Reset(d)
+	}
+	was := t.stop()
+	t.deadline = simNow().Add(d)
+	t.active = true
+	addTimer(t)
+	return was
+}
+
+//go:norace
+func dueTimer() *Timer {
+	now := clockBase.Add(time.Duration(steps)*time.Microsecond + clockOff)
+	for i := range timers {
+		if t := timers[i]; t != nil && t.active && !now.Before(t.deadline) {
+			t.active = false
+			timers[i] = nil
+			nTimers--
+			return t
+		}
+	}
+	return nil
+}
+
+// fireTimers runs the callbacks of all timers that are due.
+func fireTimers() {
+	for {
+		t := dueTimer()
+		if t == nil {
+			return
+		}
+		t.f()
+	}
+}
+
+//go:norace
+func timersPending() bool { return nTimers > 0 }
+
+//go:norace
+func timersReset() {
+	for i := range timers {
+		timers[i] = nil
+	}
+	nTimers = 0
 }
